@@ -20,9 +20,9 @@ FIXED_FG = ['#0a0b0c', '#f1f2f3', '#777777']
 
 def plan(ctx):
     items = []
-    for i in range(ctx.n(900, 20000)):
+    for i in range(ctx.n(2500, 40000)):
         items.append(('theme', engine.stable_hash((ctx.seed, 'c15t', i))))
-    for i in range(ctx.n(500, 10000)):
+    for i in range(ctx.n(1200, 20000)):
         items.append(('rename', engine.stable_hash((ctx.seed, 'c15r', i))))
     return items
 
